@@ -27,8 +27,14 @@ func isCallTo(v ssa.Value, full string) (*ssa.Call, bool) {
 		return nil, false
 	}
 	f := staticCallee(c.Common())
-	if f == nil || fnName(f) != full {
+	if f == nil {
 		return nil, false
+	}
+	if n := fnName(f); n != full {
+		// errors.New(text) is the same thing as fmt.Errorf with a verb-free format: a fresh non-nil error
+		if !(full == "fmt.Errorf" && n == "errors.New") {
+			return nil, false
+		}
 	}
 	return c, true
 }
